@@ -15,3 +15,29 @@ Theorem C11_checker_sound :
     (NoDup (fixed_codes decls) -> NoDup (map snd final)).
 Proof. exact FrontProofs.valid_codes_sound. Qed.
 Print Assumptions C11_checker_sound.
+
+From YG Require Import FrontCodes.
+
+(* C11 on the model of the visitor (Front.visit mirrors astDeclareVistor.Process and RuleVistor.Process):
+   for EVERY declaration list - explicit numbers, character literals, re-declarations in any order,
+   %type and %start names, any number of automatically numbered identifiers - the terminals of the
+   resulting identifier table pass the checker; with C11_checker_sound: a token declared with a number
+   keeps (its last) number, a character literal its character code, every other token gets a code that
+   is none of these nor -1, and if the fixed codes are distinct every terminal has its own code *)
+Theorem C11_codes_model :
+  forall (a : ast) (v : visited),
+    visit a = inr v -> valid_codes (declared_pairs (a_decl a)) (term_codes (vs_tab v)) = true.
+Proof. exact FrontCodes.visit_valid_codes. Qed.
+Print Assumptions C11_codes_model.
+
+(* the same, unfolded through the checker's soundness *)
+Theorem C11_codes :
+  forall (a : ast) (v : visited),
+    visit a = inr v ->
+    let decls := declared_pairs (a_decl a) in
+    let final := term_codes (vs_tab v) in
+    (forall n c w, In (n, c) final -> last_nonzero decls n = Some w -> c = w) /\
+    (forall n c, In (n, c) final -> last_nonzero decls n = None -> c <> (-1)%Z /\ ~ In c (fixed_codes decls)) /\
+    (NoDup (fixed_codes decls) -> NoDup (map snd final)).
+Proof. intros a v H. exact (FrontProofs.valid_codes_sound _ _ (FrontCodes.visit_valid_codes a v H)). Qed.
+Print Assumptions C11_codes.
